@@ -100,6 +100,12 @@ def install(eng, c, runner):
         e.keepalive.extend(e.p.heap.values())
         return s_py(("heap", dict(e.p.heap), e.p.nalloc))
 
+    def f_loop_entry(e, args, kw):
+        snap = getattr(e, "_loop_entry_snap", None)
+        if snap is None:
+            raise Unsupported("loop_entry() outside a loop invariant")
+        return s_py(snap)
+
     def f_heap_unchanged(e, args, kw):
         """heap_unchanged(snap, (obj, "field"), (dictref, "dict"), ...): every heap location not listed holds its
         value of the snapshot (objects allocated since the snapshot are not constrained)"""
@@ -198,7 +204,7 @@ def install(eng, c, runner):
         return s_bool(simp(M.is_js_value(e.box(args[0]))))
 
     ex.update(assume=f_assume, check=f_check, cover=f_cover, outcome=f_outcome, es_outcome=f_es_outcome,
-              same_value=f_same_value, same_ref=f_same_ref, same_elements=f_same_elements, same_outcome=f_same_outcome, heap_snapshot=f_heap_snapshot,
+              same_value=f_same_value, same_ref=f_same_ref, same_elements=f_same_elements, same_outcome=f_same_outcome, heap_snapshot=f_heap_snapshot, loop_entry=f_loop_entry,
               heap_unchanged=f_heap_unchanged, dict_after_store=f_dict_after_store, dict_after_remove=f_dict_after_remove, exc_in=f_exc_in, is_number=f_is_number,
               fresh=f_fresh, ghost_set=f_ghost_set, ghost_get=f_ghost_get, is_js_value=f_is_js_value)
     for k, v in list(ex.items()):
